@@ -57,7 +57,7 @@ def gen_case(rng, kind):
             "beta2": float(rng.choice([1.0, 0.9, 0.999])), "eps": float(rng.choice([1e-4, 1e-3])), "rel": True,
             "companion": bool(rng.integers(0, 2)), "T": 5, "hseed": int(rng.integers(0, 2 ** 31)),
             # replicated, pmap with int16-quantised statistics (x64 off only: its roots are float32), sharded (stacked global statistics)
-            "mode": str(rng.choice(["jit", "jit", "sharded", "pmapq", "pmap2"]))}
+            "mode": str(rng.choice(["jit", "jit", "sharded", "pmapq", "pmap2"])), "skipcomp": bool(rng.random() < 0.3)}
   (shape, block) = TF_LAYOUTS[int(rng.integers(0, len(TF_LAYOUTS)))]
   return {"kind": "tf", "shape": list(shape), "block": block, "decay": float(rng.choice([1.0, 0.9])),
           "companion": bool(rng.integers(0, 2)), "T": 5, "hseed": int(rng.integers(0, 2 ** 31))}
@@ -134,6 +134,13 @@ def check_ds(c, rec):
       zs = 10 ** rng.uniform(-8, 8)
       # the companion sorts before or after the leaf in the flattened tree (statistics are packed in that order)
       zkey = "a" if rng.random() < 0.5 else "z"
+      if c.get("skipcomp") and len(shape) >= 2:
+        # a companion that SKIPS preconditioning (rank below skip_preconditioning_rank_lt): it owns no statistics, so every
+        # index into the stacked statistics of the leaves after it must not move
+        zshape = [(13,), (5,), (20,)][int(rng.integers(0, 3))]
+        cfg = dict(cfg, skip_preconditioning_rank_lt=2)
+        rec.count("cases_skipped_companion")
+        full = run_ds(cfg, {"w": hist}, c["T"], mode)
       comp = run_ds(cfg, {"w": hist, zkey: [(rng.standard_normal(zshape) * zs).astype(np.float32) for _ in range(c["T"])]}, c["T"], mode)
     # one block optimised completely alone (its own optimizer instance: no other statistic to be padded to)
     sizes = [min(tuple(sl_.stop - sl_.start for sl_ in sl)) for sl in slices]
